@@ -93,7 +93,12 @@ def _shard_cmd(job, seed, tier, shard, shards, out):
             "--out", out]
     if job.get("episodes") is not None:
         args += ["--episodes", str(job["episodes"])]
-    for k, v in sorted(job.get("params", {}).items()):
+    params = dict(job.get("params", {}))
+    if eng != "miri":
+        # every shard stops starting new episodes well before the runner's own time limit for it (a
+        # busy machine makes a run shorter, not broken); the report then says that the plan was cut
+        params.setdefault("budget_s", int(job.get("timeout_s", 900) * 0.65))
+    for k, v in sorted(params.items()):
         args += ["-p", "%s=%s" % (k, v)]
     env = dict(BASE_ENV)
     spec = ENGINES[eng]
